@@ -135,6 +135,9 @@ class Program:
                 except SyntaxError as e:
                     raise AnalysisError(f"{name}: syntax error {e}")
                 self.modules[name] = ModuleInfo(name, _normalise(tree), src)
+        from .inline import inline_unknown_helpers
+
+        self.inlined_calls = inline_unknown_helpers({name: m.tree for name, m in self.modules.items()})
         _canonical_calls([m.tree for m in self.modules.values()])
         for m in self.modules.values():
             self._index_module(m)
@@ -285,12 +288,17 @@ class Program:
 
     def loc(self, fi_or_mod, node: ast.AST) -> str:
         mod = fi_or_mod.module if isinstance(fi_or_mod, FunctionInfo) else fi_or_mod
-        return f"{mod.replace('.', '/')}.py:{getattr(node, 'lineno', '?')}"
+        return f"{mod.replace('.', '/')}.py:{src_line(node)}"
 
 
 # ---------------------------------------------------------------------------
 # small AST helpers shared by rules
 # ---------------------------------------------------------------------------
+
+def src_line(node: ast.AST):
+    """line of the node in the source file (nodes moved by the load-time inliner are renumbered for ordering; see inline.renumber)"""
+    return getattr(node, "src_lineno", getattr(node, "lineno", "?"))
+
 
 def attr_chain(node: ast.AST) -> Optional[str]:
     """'self.bhe.b.H' for nested Attribute/Name, else None"""
